@@ -244,6 +244,8 @@ impl GraphEngine {
             max_created_external_id: 0,
             memtable: MemTable::default(),
             sealed: MemTable::default(),
+            sealed_runs: Vec::new(),
+            view_labels: None,
             mark: StatementMark::default(),
         }
     }
@@ -829,6 +831,11 @@ pub struct WriteTxn<'a> {
     memtable: MemTable,
     /// Writes of the statements completed earlier in this transaction.
     sealed: MemTable,
+    /// The completed statements frozen for [`WriteTxn::snapshot`], newest first.
+    sealed_runs: Vec<Arc<L0Run>>,
+    /// Node label table behind [`WriteTxn::snapshot`] and how much of the transaction's
+    /// node bookkeeping it already contains.
+    view_labels: Option<(Arc<Vec<Vec<LabelId>>>, StatementMark)>,
     /// Node bookkeeping at the last statement boundary.
     mark: StatementMark,
 }
@@ -1002,6 +1009,10 @@ impl<'a> WriteTxn<'a> {
     /// later statement is aborted with [`WriteTxn::abort_statement`].
     pub fn end_statement(&mut self) {
         let statement = std::mem::take(&mut self.memtable);
+        if !statement.is_empty() {
+            let run = statement.clone().freeze_into_run(self.txid);
+            self.sealed_runs.insert(0, Arc::new(run));
+        }
         self.sealed.absorb(statement);
         self.mark = StatementMark {
             created_nodes: self.created_nodes.len(),
@@ -1009,6 +1020,57 @@ impl<'a> WriteTxn<'a> {
             label_removals: self.pending_label_removals.len(),
             max_created_external_id: self.max_created_external_id,
         };
+    }
+
+    /// Read view for the next statement of this transaction: the committed state plus
+    /// everything this transaction wrote up to the last statement boundary, so that a
+    /// statement observes the effects of the earlier statements of its own transaction.
+    pub fn snapshot(&mut self) -> crate::api::StorageSnapshot {
+        use nervusdb_api::GraphStore;
+        let base = self.engine.snapshot();
+        let mark = self.mark;
+        if self.sealed_runs.is_empty()
+            && mark.created_nodes == 0
+            && mark.label_additions == 0
+            && mark.label_removals == 0
+        {
+            return base;
+        }
+
+        let engine = self.engine;
+        let (labels, done) = self.view_labels.get_or_insert_with(|| {
+            let published = engine.published_node_labels.read().unwrap().clone();
+            (Arc::new(published.as_ref().clone()), StatementMark::default())
+        });
+        // Extended in place unless an earlier view is still alive.
+        let table = Arc::make_mut(labels);
+        for (_, label_id, _) in &self.created_nodes[done.created_nodes..mark.created_nodes] {
+            table.push(vec![*label_id]);
+        }
+        for (node, label_id) in
+            &self.pending_label_additions[done.label_additions..mark.label_additions]
+        {
+            if let Some(node_labels) = table.get_mut(*node as usize)
+                && !node_labels.contains(label_id)
+            {
+                node_labels.push(*label_id);
+                node_labels.sort_unstable();
+            }
+        }
+        for (node, label_id) in
+            &self.pending_label_removals[done.label_removals..mark.label_removals]
+        {
+            if let Some(node_labels) = table.get_mut(*node as usize) {
+                node_labels.retain(|l| l != label_id);
+            }
+        }
+        *done = mark;
+
+        base.with_pending(
+            &self.created_nodes[..mark.created_nodes],
+            labels.clone(),
+            &self.sealed_runs,
+        )
     }
 
     /// Discards everything written since the last statement boundary, so that a statement
